@@ -177,14 +177,12 @@ func mkInt(z *big.Int) *Term {
 func mkInt64(i int64) *Term { return mkInt(big.NewInt(i)) }
 
 func mkVar(name string, s Sort) *Term {
-	if t, ok := varTab[name]; ok {
-		if t.sort != s {
-			panic("variable " + name + " redeclared with another sort")
-		}
+	key := name + "|" + s.String()
+	if t, ok := varTab[key]; ok {
 		return t
 	}
-	t := intern("v"+name, func() *Term { return &Term{op: OVar, sort: s, name: name} })
-	varTab[name] = t
+	t := intern("v"+key, func() *Term { return &Term{op: OVar, sort: s, name: name} })
+	varTab[key] = t
 	return t
 }
 
